@@ -26,6 +26,10 @@ TReadEvict  == /\ Is("Read") /\ (~InFinish \/ start[E.conn] < ctid) /\ pc[E.conn
                /\ UNCHANGED <<hist, sLtid, start, inval, iLtid, pc, polled, dirty, commitLock, pending, ctid, pool, closes>>
 TWrite      == Is("Write") /\ (Write(E.conn, E.oid) \/ (E.oid \in dirty[E.conn] /\ UNCHANGED vars))
 TBeginVote  == Is("BeginVote") /\ BeginVote(E.conn) /\ (E.ok <=> pc'[E.conn] = "voted")
+OidSet(seq) == {seq[i] : i \in 1..Len(seq)}
+TUndoVote   == Is("UndoVote") /\ UndoVote(E.conn, OidSet(E.oids), E.ok)
+\* an undo transaction that failed (UndoError) or was aborted leaves no trace
+TUndoAbort  == Is("UndoAbort") /\ pc[E.conn] = "new" /\ UNCHANGED vars
 TFinish     == Is("FinishStart") /\ FinishStart(E.conn) /\ ctid = E.tid
 TDeliver    == Is("Deliver") /\ Deliver(E.conn, E.to) /\ iLtid'[E.to] = E.tid
 TPublish    == Is("Publish") /\ Publish(E.conn) /\ sLtid' = E.tid
@@ -33,7 +37,7 @@ TPublish    == Is("Publish") /\ Publish(E.conn) /\ sLtid' = E.tid
 \* joined) is a stutter
 TAbort      == Is("AbortTxn") /\ (AbortTxn(E.conn) \/ (pc[E.conn] \in {"idle", "closed"} /\ UNCHANGED vars))
 TNext == TOpenNew \/ TOpenPooled \/ TClose \/ TPollRead \/ TPollApply \/ TRead \/ TReadEvict \/ TWrite \/ TBeginVote
-         \/ TFinish \/ TDeliver \/ TPublish \/ TAbort
+         \/ TUndoVote \/ TUndoAbort \/ TFinish \/ TDeliver \/ TPublish \/ TAbort
 Accepted == l = Len(Tr) + 1
 Report == (Accepted => PrintT(<<"ACCEPT", t>>)) /\ (IOEnv.TRACE_VERBOSE = "1" => PrintT(<<"AT", t, l>>))
 =============================================================================
